@@ -2,35 +2,34 @@ package main
 
 // Audited exemptions: one named construct per line, with the reason it cannot
 // panic although no dominating guard inside the function proves it.
-// Key: "function | kind construct" (construct = source text of the expression).
+// Key: "function | kind construct"; construct is the canonical rendering of the SSA value (parameters
+// by position, locals and loop variables anonymous), so renaming or hoisting locals does not change it.
 
 const evalAstShape = "eval_ast returns, with a nil error, a List with exactly one element per element of its List argument (checked separately by C01.order: one append per iteration of a range loop), and the argument was tested non-empty before the dispatch"
 
 var exemptionsC04 = map[string]string{
-	`lisp.EVAL | panic panic(fmt.Errorf("debugger command not handled %d", cmd))`: "reached only when a host Stepper callback returns a value outside debuggertypes.Command's declared constants; C18.enum checks the switch covers every declared constant",
-	`lisp.EVAL | assert el.(List)`:                         evalAstShape,
-	`lisp.EVAL | index el.(List).Val[0]`:                   evalAstShape,
-	`lisp.EVAL | slice el.(List).Val[1:]`:                  evalAstShape,
-	`lisp.READWithPreamble | slice lineItems[0][1][3:]`:    "group 1 of placeholderRE is `;; $` followed by at least one name character, so it is at least 5 bytes long; C15.format checks that the pattern starts with the preamble prefix",
-	`lisp.do | slice lst[from:len(lst) + to]`:              "every call site passes (from,to) in {(2,-1),(1,-1),(0,0),(0,-1)} with a list that has at least `from` elements (head symbol and binding vector were read by the caller) and the function returned already when len(lst) == from; the call-site constants are checked by C01.body",
-	`lisp.do | assert evaledAST.(List)`:                    evalAstShape,
-	`lisp.do | index evaledLst[len(evaledLst) - 1]`:        evalAstShape + "; the slice evaluated is non-empty because len(lst) != from was tested",
-	`lisp.do | index lst[len(lst) - 1]`:                    "len(lst) > from >= 0 at this point (see the slice above)",
-	`env.NewSubordinateEnv | assert outer.(*Env)`:          "documented assumption: EnvType values are the module's own *env.Env (the only implementation in the module)",
-	`env.NewSubordinateEnvWithBinds | assert outer.(*Env)`: "documented assumption: EnvType values are the module's own *env.Env (the only implementation in the module)",
-	`printer.Pr_str | assert value.(types.HashMap)`:        "contract of marshaler.HashMap implementations (host types); the only in-module implementation, LispError.MarshalHashMap, returns a types.HashMap",
+	`lisp.EVAL | panic Errorf("debugger command not handled %d",&local[:])`:                                         "reached only when a host Stepper callback returns a value outside debuggertypes.Command's declared constants; C18.enum checks the switch covers every declared constant",
+	`lisp.EVAL | index eval_ast(local,macroexpand(local,φ,local)#0,local)#0.(types.List).Val[0]`:                    evalAstShape,
+	`lisp.EVAL | slice eval_ast(local,macroexpand(local,φ,local)#0,local)#0.(types.List).Val[1:]`:                   evalAstShape,
+	`lisp.READWithPreamble | slice FindAllStringSubmatch(placeholderRE,Trim(Cut(φ,"\n")#0," \t\r\n"),-1)[0][1][3:]`: "group 1 of placeholderRE is `;; $` followed by at least one name character, so it is at least 5 bytes long; C15.format checks that the pattern starts with the preamble prefix",
+	`lisp.do | slice p1.(types.List).Val[p2:len(p1.(types.List).Val)+p3]`:                                           "every call site passes (from,to) in {(2,-1),(1,-1),(0,0),(0,-1)} with a list that has at least `from` elements (head symbol and binding vector were read by the caller) and the function returned already when len(lst) == from; the call-site constants are checked by C01.body",
+	`lisp.do | index eval_ast(p0,local,p4)#0.(types.List).Val[len(eval_ast(p0,local,p4)#0.(types.List).Val)-1]`:     evalAstShape + "; the slice evaluated is non-empty because len(lst) != from was tested",
+	`lisp.do | index p1.(types.List).Val[len(p1.(types.List).Val)-1]`:                                               "len(lst) > from >= 0 at this point (see the slice above)",
+	`env.NewSubordinateEnv | assert p0.(*env.Env)`:                                                                  "documented assumption: EnvType values are the module's own *env.Env (the only implementation in the module)",
+	`env.NewSubordinateEnvWithBinds | assert p0.(*env.Env)`:                                                         "documented assumption: EnvType values are the module's own *env.Env (the only implementation in the module)",
+	`printer.Pr_str | assert p0.(marshaler.HashMap).MarshalHashMap()#0.(types.HashMap)`:                             "contract of marshaler.HashMap implementations (host types); the only in-module implementation, LispError.MarshalHashMap, returns a types.HashMap",
 }
 
 const scannerTokens = "tokens of kind String, RawString and Keyword that the trusted scanner returns without raising its error count include their delimiters (\"…\", ¬…¬, :…): unterminated literals make tokenize return 'invalid token' before read_atom runs"
 
 var exemptionsC05 = map[string]string{
-	`reader.read_atom | slice (*token)[1:len(*token) - 1]`:                 scannerTokens,
-	`reader.read_atom | slice (*token)[2:len(*token) - 2]`:                 scannerTokens + "; the lone ¬ is handled by the comparison just above",
-	`reader.read_atom | slice (*token)[1:len(*token)]`:                     scannerTokens,
-	`reader.Read_str | index matches[1]`:                                   "regexp.FindStringSubmatch returns nil or 1+NumSubexp elements and moduleNamePrefixRE has one group; the nil case is tested",
-	`reader.Read_str | index tokenReader.tokens[tokenReader.position - 1]`: "read_form returned without error, so it consumed at least one token (C05.progress: consume summary of read_form) and next() never moves the cursor past len(tokens)",
-	`lisp.READWithPreamble | slice lineItems[0][1][3:]`:                    "group 1 of placeholderRE is `;; $` followed by at least one name character, so it is at least 5 bytes long; C15.format checks that the pattern starts with the preamble prefix",
-	`printer.Pr_str | assert value.(types.HashMap)`:                        "contract of marshaler.HashMap implementations (host types); the only in-module implementation, LispError.MarshalHashMap, returns a types.HashMap",
+	`reader.read_atom | slice next(p0).Value[1:len(next(p0).Value)-1]`:                                              scannerTokens,
+	`reader.read_atom | slice next(p0).Value[2:len(next(p0).Value)-2]`:                                              scannerTokens + "; the lone ¬ is handled by the comparison just above",
+	`reader.read_atom | slice next(p0).Value[1:len(next(p0).Value)]`:                                                scannerTokens,
+	`reader.Read_str | index FindStringSubmatch(moduleNamePrefixRE,p0)[1]`:                                          "regexp.FindStringSubmatch returns nil or 1+NumSubexp elements and moduleNamePrefixRE has one group; the nil case is tested",
+	`reader.Read_str | index local.tokens[local.position-1]`:                                                        "read_form returned without error, so it consumed at least one token (C05.progress: consume summary of read_form) and next() never moves the cursor past len(tokens)",
+	`lisp.READWithPreamble | slice FindAllStringSubmatch(placeholderRE,Trim(Cut(φ,"\n")#0," \t\r\n"),-1)[0][1][3:]`: "group 1 of placeholderRE is `;; $` followed by at least one name character, so it is at least 5 bytes long; C15.format checks that the pattern starts with the preamble prefix",
+	`printer.Pr_str | assert p0.(marshaler.HashMap).MarshalHashMap()#0.(types.HashMap)`:                             "contract of marshaler.HashMap implementations (host types); the only in-module implementation, LispError.MarshalHashMap, returns a types.HashMap",
 }
 
 var exemptionsC03 = map[string]string{
@@ -38,12 +37,12 @@ var exemptionsC03 = map[string]string{
 }
 
 var exemptionsC14 = map[string]string{
-	`types.Equal_Q | assert b.(Symbol)`:  "the gate at the top of the function returned false unless reflect.TypeOf(a) == reflect.TypeOf(b) or both are sequential; a Symbol is not sequential, so b has a's dynamic type here (reflection is not modelled by the fact engine; C14.gate checks the gate)",
-	`types.Equal_Q | assert b.(HashMap)`: "as above: b has a's dynamic type (HashMap is not sequential)",
-	`types.Equal_Q | assert b.(Set)`:     "as above: b has a's dynamic type (Set is not sequential)",
+	`types.Equal_Q | assert p1.(types.Symbol)`:  "the gate at the top of the function returned false unless reflect.TypeOf(a) == reflect.TypeOf(b) or both are sequential; a Symbol is not sequential, so b has a's dynamic type here (reflection is not modelled by the fact engine; C14.gate checks the gate)",
+	`types.Equal_Q | assert p1.(types.HashMap)`: "as above: b has a's dynamic type (HashMap is not sequential)",
+	`types.Equal_Q | assert p1.(types.Set)`:     "as above: b has a's dynamic type (Set is not sequential)",
 }
 
 var exemptionsC20 = map[string]string{
-	`lib/call.call | slice functionFullName[:n]`:     "runtime.FuncForPC(...).Name() of a Go function always contains a dot (package.Function), so LastIndex cannot return -1 here",
-	`lib/call.call | slice functionFullName[n + 1:]`: "n+1 <= len for any n returned by LastIndex on the same string",
+	`lib/call.call | slice local[:LastIndex(local,".")]`:   "runtime.FuncForPC(...).Name() of a Go function always contains a dot (package.Function), so LastIndex cannot return -1 here",
+	`lib/call.call | slice local[LastIndex(local,".")+1:]`: "n+1 <= len for any n returned by LastIndex on the same string",
 }
